@@ -308,7 +308,12 @@ class Run:
         self.covs0 = [self.cov(f) for f in self.files] if not w["single"] else []
         if w["single"]:
             self.covs0 = []
-        self.make_fileset()
+        try:
+            self.make_fileset()
+        except Exception as e:  # noqa: typhon refused a legal configuration
+            self.V.append(_viol(f"C01/constructor/exception/{type(e).__name__}",
+                                f"FileSet(...) raised {type(e).__name__}: {e}"[:300]))
+            return
         self.ex_names_now = set(self.ex_names()) if not w["single"] else set()
         self.ex_periods_now = self.ex_periods() if not w["single"] else []
         starts = [f["t0"] for f in self.files]
@@ -316,7 +321,14 @@ class Run:
             self.probe("duplicate_start_times")
         self.probe("backend_" + w["backend"])
         for i, o in enumerate(w["ops"]):
-            self.op(i, o)
+            try:
+                self.op(i, o)
+            except AssertionError:
+                raise
+            except Exception as e:  # noqa: anything typhon raised outside the guarded calls
+                self.V.append(_viol(
+                    f"C01/{o['op']}/exception/{type(e).__name__}",
+                    f"operation {o['op']}: {type(e).__name__}: {e}"[:300]))
         if getattr(self.be.fs, "permuted", 0):
             self.probe("listing_permuted")
 
